@@ -5488,6 +5488,18 @@ class Entity(object, metaclass=EntityMeta):
         else:
             objects_to_save[save_pos] = None
         obj._save_pos_ = None
+        if cache.modified_collections:
+            # saved through obj.flush(): the row is stored now, so the object is no longer a pending addition
+            # to / removal from the one-to-many collections it belongs to (SessionCache.flush() has reset that
+            # bookkeeping for all collections before it saves anything)
+            for attr in obj._attrs_with_columns_:
+                reverse = attr.reverse
+                if reverse is None or not reverse.is_collection: continue
+                for owner in cache.modified_collections.get(reverse, ()):
+                    setdata = owner._vals_.get(reverse) if owner._vals_ is not None else None
+                    if setdata is None: continue
+                    if setdata.added: setdata.added.discard(obj)
+                    if setdata.removed: setdata.removed.discard(obj)
     def flush(obj):
         if obj._status_ not in ('created', 'modified', 'marked_to_delete'):
             return
